@@ -1,4 +1,4 @@
-use crate::nodes::{Expression, FunctionReturnType, Token, Type};
+use crate::nodes::{Expression, FunctionReturnType, NumberExpression, Token, Type};
 
 /// Represents binary operators used in a binary expression.
 #[derive(Clone, Copy, Debug, PartialEq, Eq)]
@@ -35,6 +35,12 @@ pub enum BinaryOperator {
     Caret,
     /// String concatenation operator (`..`)
     Concat,
+}
+
+#[inline]
+fn is_negative_number(number: &NumberExpression) -> bool {
+    let value = number.compute_value();
+    value.is_finite() && value.is_sign_negative()
 }
 
 #[inline]
@@ -173,6 +179,10 @@ impl BinaryOperator {
                 }
             }
             Expression::Unary(_) => self.precedes_unary_expression(),
+            // a number holding a negative value is written with a minus sign
+            Expression::Number(number) => {
+                self.precedes_unary_expression() && is_negative_number(number)
+            }
             Expression::If(_) => true,
             _ => false,
         };
